@@ -11,6 +11,8 @@
         spec fn spec_dec(b: Seq<u8>) -> Option<(T, int)>;
         /// every successful decode consumes at least one byte
         spec fn progresses() -> bool;
+        /// the decoder looks only at the bytes it consumes
+        spec fn self_delimiting() -> bool;
 
         //@ fn src:zvt_builder/src/encoding.rs | trait Encoding | encode | sig
         //@ tag enc.exact C17 C03
@@ -32,6 +34,13 @@
         proof fn law_inverse(v: &T)
             requires Self::enc_ok(v), Self::canon(v),
             ensures Self::spec_dec(Self::spec_enc(v)) == Some((*v, Self::spec_enc(v).len() as int));
+        //@ tag enc.law_dec_frame C14
+        /// bytes behind what the decoder consumed do not influence the result
+        proof fn law_dec_frame(b: Seq<u8>, s: Seq<u8>)
+            requires Self::self_delimiting(), Self::spec_dec(b) is Some,
+            ensures Self::spec_dec(b + s) == Self::spec_dec(b);
+        proof fn law_dec_bounds(b: Seq<u8>)
+            ensures Self::spec_dec(b) matches Some((v, k)) ==> 0 <= k <= b.len();
         //@ untag
     }
 
@@ -62,6 +71,12 @@
         //@ end
         //@ fn src:zvt_builder/src/encoding.rs | impl encoding::Encoding<Tag> for Default | decode | props=C02
         //@ end
+        open spec fn self_delimiting() -> bool { true }
+        proof fn law_dec_bounds(b: Seq<u8>) {}
+        //@ tag enc.law_dec_frame.tag C14
+        proof fn law_dec_frame(b: Seq<u8>, s: Seq<u8>) {
+            if b.len() >= 2 { assert((b + s).subrange(0, 2) =~= b.subrange(0, 2)); }
+        }
         //@ tag enc.law_inverse.tag C17 C01
         proof fn law_inverse(v: &Tag) {
             if tag_is_two_byte(v.0) {
@@ -84,6 +99,12 @@
         //@ end
         //@ fn src:zvt_builder/src/encoding.rs | impl encoding::Encoding<Tag> for BigEndian | decode | props=C02
         //@ end
+        open spec fn self_delimiting() -> bool { true }
+        proof fn law_dec_bounds(b: Seq<u8>) {}
+        //@ tag enc.law_dec_frame.tagbe C14
+        proof fn law_dec_frame(b: Seq<u8>, s: Seq<u8>) {
+            assert((b + s).subrange(0, 2) =~= b.subrange(0, 2));
+        }
         //@ tag enc.law_inverse.tagbe C17 C01
         proof fn law_inverse(v: &Tag) {
             lemma_be2_inv(v.0 as nat);
@@ -109,6 +130,10 @@
         //@ end
         //@ fn src:zvt_builder/src/encoding.rs | impl Encoding<Option<T>> for E | encode
         //@ end
+        open spec fn self_delimiting() -> bool { E::self_delimiting() }
+        proof fn law_dec_bounds(b: Seq<u8>) { E::law_dec_bounds(b); }
+        //@ tag enc.law_dec_frame.option C14
+        proof fn law_dec_frame(b: Seq<u8>, s: Seq<u8>) { E::law_dec_frame(b, s); }
         //@ tag enc.law_inverse.option C01
         proof fn law_inverse(v: &Option<T>) {
             match v { Some(i) => { E::law_inverse(i); } None => { } }
@@ -125,12 +150,17 @@
         open spec fn enc_ok(v: &Vec<T>) -> bool { false }
         open spec fn canon(v: &Vec<T>) -> bool { false }
         uninterp spec fn spec_enc(v: &Vec<T>) -> Seq<u8>;
-        open spec fn spec_dec(b: Seq<u8>) -> Option<(Vec<T>, int)> { vec_blanket_dec::<T, E>(b) }
+        open spec fn spec_dec(b: Seq<u8>) -> Option<(Vec<T>, int)> {
+            match vec_blanket_dec::<T, E>(b) { Some((v, k)) => if 0 <= k <= b.len() { Some((v, k)) } else { None }, None => None }
+        }
         open spec fn progresses() -> bool { false }
         //@ fn src:zvt_builder/src/encoding.rs | impl Encoding<Vec<T>> for E | encode | ext
         //@ end
         //@ fn src:zvt_builder/src/encoding.rs | impl Encoding<Vec<T>> for E | decode | ext
         //@ end
+        open spec fn self_delimiting() -> bool { false }
+        proof fn law_dec_bounds(b: Seq<u8>) {}
+        proof fn law_dec_frame(b: Seq<u8>, s: Seq<u8>) {}
         proof fn law_inverse(v: &Vec<T>) {}
     }
     pub uninterp spec fn vec_blanket_dec<T, E: Encoding<T>>(b: Seq<u8>) -> Option<(Vec<T>, int)>;
@@ -151,6 +181,9 @@
         //@ end
         //@ fn src:zvt_builder/src/encoding.rs | impl Encoding<String> for Default | decode | ext
         //@ end
+        open spec fn self_delimiting() -> bool { false }
+        proof fn law_dec_bounds(b: Seq<u8>) {}
+        proof fn law_dec_frame(b: Seq<u8>, s: Seq<u8>) {}
         #[verifier::external_body]
         proof fn law_inverse(v: &String) {}
     }
@@ -169,6 +202,9 @@
         //@ end
         //@ fn src:zvt_builder/src/encoding.rs | impl Encoding<String> for Hex | decode | ext
         //@ end
+        open spec fn self_delimiting() -> bool { false }
+        proof fn law_dec_bounds(b: Seq<u8>) {}
+        proof fn law_dec_frame(b: Seq<u8>, s: Seq<u8>) {}
         #[verifier::external_body]
         proof fn law_inverse(v: &String) {}
     }
